@@ -136,6 +136,7 @@ type FnCtx struct {
 	boxes     map[string]Val
 	nopanic   bool
 	sweep     bool // zero-annotation sweep mode: loops without invariants allowed
+	blockCanaries bool
 	lockOnly  bool // only the lock-discipline obligations of this function are claimed (C16 sweep)
 	funcName  string
 	lockDecl  map[string]*GuardDecl
